@@ -30,11 +30,13 @@ import nlx
 RULE = ('seeded designs = gen_designs.make_design + C04 structure (const exprs, one-const 1-bit gates, '
         'swapped-argument duplicates of & | ^ nand + * == - < > concat mux, duplicated Const objects, '
         'registers of constants and chains of them, write-only memory logic, dead logic, w / full-slice chains) '
-        'plus 11 directed witnesses (multi-bit constant nand, duplicate constant memory writes, swapped non-commutative ops, '
-        'memory writes with constant data / constant enables read back, 1-bit identity-element folds driving Outputs directly (raw nets and after direct_connect_outputs), '
+        'plus 12 directed witnesses (multi-bit constant nand, duplicate constant memory writes, swapped non-commutative ops, '
+        'memory writes with constant data / constant enables read back, duplicated sub-expressions consumed by nets reading them in several argument positions, 1-bit identity-element folds driving Outputs directly (raw nets and after direct_connect_outputs), '
         'same-width permuting selects next to identity slices, word-level & | ^ nand against 0 / all-ones / middle constants) with fixed distinguishing stimulus; x form {word, synth, nand, aig} x pass {optimize, constant_propagation, '
         'common_subexp_elimination, _remove_wire_nets, _remove_slice_nets, _remove_unlistened_nets} x '
-        'applications {1, 2}; a case is distinct by (design, form, pass, reps, output trace) and non-trivial '
+        'applications {1, 2}; plus, on every word-level design, every documented calling convention of optimize() (block= given / omitted, '
+        'update_working_block True / False, skip_sanity_check, the block being / not being the working block after another design was built) '
+        'with the returned block, the untouched original, the working block and the behaviour observed; a case is distinct by (design, form, pass, reps, output trace) and non-trivial '
         'when the pass changed the netlist (folded / merged / removed at least one net or wire) and at least one Output varies')
 IMPORTS_SPEC = 'From PyRTL Require Import Netlist.Sem Netlist.WFDefs Netlist.SpecHarness.'
 IMPORTS_MODEL = ('From PyRTL Require Import Netlist.Sem Netlist.WFDefs Netlist.SpecHarness '
@@ -148,7 +150,7 @@ def extend_design(rng, d, heavy, maxw=8):
             return pyrtl.concat(a, b)
         raise ValueError(op)
 
-    kinds = ['constexpr', 'oneconst', 'swapdup', 'swapdup', 'samedup', 'constdup', 'regconst',
+    kinds = ['constexpr', 'oneconst', 'swapdup', 'swapdup', 'samedup', 'constdup', 'regconst', 'dupselfuse',
              'memwrite', 'dead', 'chain', 'muxdup', 'constexpr', 'oneconst']
     n = rng.randint(5, 10) if heavy else rng.randint(2, 4)
     for _ in range(n):
@@ -186,6 +188,15 @@ def extend_design(rng, d, heavy, maxw=8):
                 outs.extend([t1, t2])
             else:
                 outs.append(pyrtl.concat(t1, t2))
+        elif k == 'dupselfuse':
+            w = wchoice([1, 2, 3])
+            a, b = operand(w), operand(w)
+            op = rng.choice('&|^n+-c')
+            for t in (binop(op, a, b), binop(op, a, b)):
+                use = rng.choice('*c&-^')
+                u = (t * t) if use == '*' else binop(use, t, t)
+                pool.append(u)
+                outs.append(u)
         elif k == 'muxdup':
             w = wchoice([1, 2, 4])
             s = operand()
@@ -346,6 +357,21 @@ def directed(kind):
         d.stimulus = [{'wa': w, 'ra': r, 'en': e, 'di': (3 * w + 5) % 16}
                       for (w, r, e) in [(0, 0, 1), (1, 0, 0), (1, 1, 1), (2, 1, 1), (3, 2, 0), (3, 3, 1),
                                         (0, 3, 0), (0, 0, 0), (1, 1, 0), (2, 2, 0)]]
+    elif kind == 'dup_selfuse':
+        # duplicated sub-expressions (one of each pair is discarded by CSE, whichever the set
+        # order picks) whose results are read by nets using the SAME wire in several argument
+        # positions, so the consumer is rewired in two places at once
+        a = pyrtl.Input(3, 'a')
+        b = pyrtl.Input(3, 'b')
+        s1 = pyrtl.Input(1, 's')
+        d.inputs += [a, b, s1]
+        pairs = [(a - b, a - b), (a & b, b & a), (a + pyrtl.Const(3, 3), a + pyrtl.Const(3, 3)),
+                 (a ^ b, a ^ b), (pyrtl.concat(a, b), pyrtl.concat(a, b)), (a < b, a < b)]
+        for t1, t2 in pairs:
+            for t in (t1, t2):
+                outs += [t * t, pyrtl.concat(t, t), t & t, t - t, pyrtl.select(s1, t, t), t.nand(t),
+                         pyrtl.concat(t, a[0], t)]
+        d.stimulus = [{'a': (3 * i + 1) % 8, 'b': (5 * i + 2) % 8, 's': i % 2} for i in range(8)]
     elif kind in ('direct_out_raw', 'direct_out_dco'):
         # 1-bit gates with one constant input whose destination IS an Output (no 'w' net in
         # between): hand-built nets, or API-built nets after direct_connect_outputs()
@@ -401,9 +427,9 @@ def directed(kind):
 
 DIRECTED = ['nand_const', 'memwr_dup', 'swap_noncomm', 'perm_selects',
             'wordconst_and', 'wordconst_or', 'wordconst_xor', 'wordconst_nand',
-            'memwr_consts', 'direct_out_raw', 'direct_out_dco']
+            'memwr_consts', 'direct_out_raw', 'direct_out_dco', 'dup_selfuse']
 # gate-level forms of the word-constant witnesses are large and contain only 1-bit gates
-DIRECTED_FORMS = {k: (['word'] if k.startswith(('wordconst_', 'direct_out_')) else ['word', 'synth'])
+DIRECTED_FORMS = {k: (['word'] if k.startswith(('wordconst_', 'direct_out_', 'dup_selfuse')) else ['word', 'synth'])
                   for k in DIRECTED}
 
 
@@ -691,9 +717,57 @@ def has_dup_const_memwrite(block):
     return False
 
 
+# Every documented way of calling optimize(): block= given or omitted, update_working_block
+# True / False, skip_sanity_check, with the block to optimise being / not being the working
+# block ("foreign": another design was built after it and is the working block now).
+CONVENTIONS = [
+    ('optimize() [B is the working block]', dict(give=False, uwb=True, foreign=False, skip=False)),
+    ('optimize(block=B) [another design is the working block]', dict(give=True, uwb=True, foreign=True, skip=False)),
+    ('optimize(block=B, skip_sanity_check=True) [another design is the working block]',
+     dict(give=True, uwb=True, foreign=True, skip=True)),
+    ('optimize(update_working_block=False) [B is the working block]', dict(give=False, uwb=False, foreign=False, skip=False)),
+    ('optimize(update_working_block=False, block=B) [B is the working block]',
+     dict(give=True, uwb=False, foreign=False, skip=False)),
+    ('optimize(update_working_block=False, block=B) [another design is the working block]',
+     dict(give=True, uwb=False, foreign=True, skip=False)),
+    ('optimize(update_working_block=False, block=B, skip_sanity_check=True) [another design is the working block]',
+     dict(give=True, uwb=False, foreign=True, skip=True)),
+]
+
+
+def build_decoy(ctx, i):
+    """an unrelated API-built design that becomes the working block"""
+    rng = ctx.sub_rng('decoy', i)
+    return gen_designs.make_design(rng, n_ops=rng.randint(2, 5), wide_prob=0.0, max_width=4,
+                                   allow_mem=False, allow_rom=False)
+
+
+def call_optimize(ctx, i, target, give, uwb, foreign, skip):
+    """-> (returned block, working block before, working block after)"""
+    if foreign:
+        build_decoy(ctx, i)                       # resets the working block and builds into it
+    else:
+        pyrtl.set_working_block(target, no_sanity_check=True)
+    wb_before = pyrtl.working_block()
+    kwargs = dict(update_working_block=uwb, skip_sanity_check=skip)
+    if give:
+        kwargs['block'] = target
+    with quiet():
+        res = pyrtl.optimize(**kwargs)
+    return res, wb_before, pyrtl.working_block()
+
+
+def state_by_name(block, regmap, memmap):
+    """the same initial state, addressed through the (possibly copied) block's own objects"""
+    regs = {r.name: r for r in block.wirevector_subset(pyrtl.Register)}
+    mems = {m.name: m for m in block_mems(block)}
+    return ({regs[r.name]: v for r, v in regmap.items() if r.name in regs},
+            {mems[m.name]: c for m, c in memmap.items() if m.name in mems})
+
+
 def run(ctx):
     quick = ctx.tier == 'quick'
-    ndesigns = (len(DIRECTED) + 5) if quick else (len(DIRECTED) + 80)
+    ndesigns = (len(DIRECTED) + 4) if quick else (len(DIRECTED) + 80)
     ncyc_max = 6 if quick else 12
     max_model_nets = 320 if quick else 700
     cases = []          # one per (design, form): shared dump + stimulus + spec
@@ -817,16 +891,65 @@ def run(ctx):
                     run_['exact'] = real_exact(b)
                     run_['snap'] = snapshot(b)
                     case['runs'].append(run_)
-                    if reps == 1 or pname in ('optimize', 'constant_propagation', 'common_subexp_elimination'):
+                    if reps == 1 or pname == 'optimize' or (not quick and pname in ('constant_propagation', 'common_subexp_elimination')):
                         reqs.append((pname, reps))     # model tie (the search covers every run)
             restore(block, snap0)
+            # ---- phase C: every documented calling convention of optimize() (word-level designs)
+            if form == 'word':
+                for cname, cv in CONVENTIONS:
+                    restore(block, snap0)
+                    target = block
+                    for reps in (1, 2):
+                        run_ = dict(pname=cname, reps=reps, error=None, convention=True, conv_issues=[])
+                        before = net_stats(target)
+                        tsnap = snapshot(target)
+                        try:
+                            res, wb0, wb1 = call_optimize(ctx, i, target, cv['give'], cv['uwb'], cv['foreign'], cv['skip'])
+                        except Exception as e:
+                            run_['error'] = (type(e).__name__, str(e)[:200], traceback.format_exc()[-600:], False, False)
+                            case['runs'].append(run_)
+                            break
+                        if cv['uwb'] and res is not target:
+                            run_['conv_issues'].append('returned-block: update_working_block=True must optimise and return the block itself')
+                        if not cv['uwb']:
+                            if res is target:
+                                run_['conv_issues'].append('returned-block: update_working_block=False must return a copy')
+                            elif snapshot(target)[0] != tsnap[0] or snapshot(target)[1] != tsnap[1]:
+                                run_['conv_issues'].append('target-modified: update_working_block=False must leave the given block untouched')
+                        if wb1 is not wb0:
+                            run_['conv_issues'].append('working-block: the call changed which block is the working block')
+                        after = net_stats(res)
+                        run_['changed'] = (after != before)
+                        ctx.count('convention_nets_removed', cname, before[0] - after[0])
+                        run_['in_names'] = sorted(w.name for w in res.wirevector_subset(pyrtl.Input))
+                        run_['out_names'] = sorted(w.name for w in res.wirevector_subset(pyrtl.Output))
+                        try:
+                            with quiet():
+                                res.sanity_check()
+                            run_['sanity'] = None
+                        except Exception as e:
+                            run_['sanity'] = '%s: %s' % (type(e).__name__, str(e)[:200])
+                        try:
+                            rm, mm = state_by_name(res, regmap, memmap)
+                            sim, tracer = simulate(res, rm, mm, inputs, track=[w for w in res.wirevector_subset(pyrtl.Output)])
+                            run_['trace'] = [[tracer.trace[nm][t] for nm in out_names] for t in range(ncyc)] \
+                                if all(nm in tracer.trace for nm in out_names) else None
+                        except Exception as e:
+                            run_['trace'] = None
+                            run_['sim_error'] = '%s: %s' % (type(e).__name__, str(e)[:200])
+                        run_['res_nets'] = [str(n) for n in res.logic] if after[0] < 80 else None
+                        case['runs'].append(run_)
+                        target = res
+                restore(block, snap0)
             case['reqs'] = reqs if nnets0 <= max_model_nets else []
             if nnets0 > max_model_nets:
                 ctx.count('model_skipped', 'original has more than %d nets' % max_model_nets)
             if case['reqs']:
-                prs = '; '.join('(%d, %d)' % (PASS_CODE[p], r) for p, r in case['reqs'])
+                # quick tier: the theorem premises are evaluated on the first application only
+                prs = '; '.join('(%s, (%d, %d))' % ('false' if (quick and r == 2) else 'true', PASS_CODE[p], r)
+                                for p, r in case['reqs'])
                 model_exprs.append(
-                    'let nl := %s in map (fun pr => opt_case (fst pr) (snd pr) nl 0 %s %s %s %s) [%s]' % (
+                    'let nl := %s in map (fun pr => opt_case2 (fst pr) (fst (snd pr)) (snd (snd pr)) nl 0 %s %s %s %s) [%s]' % (
                         dump.coq(), dump.regmap(regmap), dump.memmap(memmap), dump.inputs(inputs),
                         nlx.zlist([dump.wid[w] for w in outs]), prs))
                 model_index.append(len(cases))
@@ -875,7 +998,7 @@ def run(ctx):
                           'result_nets': (r.get('res_nets') or [])[:10], 'inputs': c['inputs'][:2],
                           'output_trace': (r.get('trace') or [])[:2]}
             ctx.case(key, nontrivial=bool(r.get('changed')) and varying, sample=sample)
-            ctx.count('pass', pname)
+            ctx.count('pass', pname if not r.get('convention') else 'optimize-calling-conventions')
             if r['error'] is not None:
                 etype, msg, tb, nandc, dupw = r['error']
                 if nandc and '_constant_prop_pass' in tb:
@@ -883,20 +1006,25 @@ def run(ctx):
                 elif dupw and etype == 'IndexError' and '_has_normal_dest_wire' in tb:
                     sig = 'cse:duplicate-const-memwrite-crash'
                 else:
-                    sig = '%s:raises:%s' % (pname, etype)
+                    sig = '%s:raises:%s' % (pname if not r.get('convention') else 'optimize-call', etype)
                 ctx.spec_violation(sig, '%s raised %s on a well-formed %s design: %s' % (pname, etype, c['form'], msg),
                                    dict(rep, traceback=tb))
                 continue
+            if r.get('conv_issues'):
+                for issue in r['conv_issues']:
+                    ctx.spec_violation('optimize-call:%s' % issue.split(':')[0],
+                                       '%s (x%d): %s' % (pname, reps, issue), rep)
             # --- search: interface, well-formedness, behaviour vs the reference semantics of the original
+            sigp = pname if not r.get('convention') else 'optimize-call'
             if r['in_names'] != c['in_names'] or r['out_names'] != sorted(c['out_names']):
-                ctx.spec_violation('%s:io-names' % pname, '%s changed the Input/Output name sets' % pname,
+                ctx.spec_violation('%s:io-names' % sigp, '%s changed the Input/Output name sets' % pname,
                                    dict(rep, inputs_after=r['in_names'], outputs_after=r['out_names']))
                 continue
             if r['sanity'] is not None:
-                ctx.spec_violation('%s:sanity' % pname, 'result of %s fails sanity_check: %s' % (pname, r['sanity']), rep)
+                ctx.spec_violation('%s:sanity' % sigp, 'result of %s fails sanity_check: %s' % (pname, r['sanity']), rep)
                 continue
             if r.get('trace') is None:
-                ctx.spec_violation('%s:simulation' % pname, 'result of %s cannot be simulated: %s' % (
+                ctx.spec_violation('%s:simulation' % sigp, 'result of %s cannot be simulated: %s' % (
                     pname, r.get('sim_error', 'output missing from trace')), rep)
                 continue
             bad = None
@@ -909,10 +1037,10 @@ def run(ctx):
                     break
             if bad:
                 op, net = '?', None
-                if r.get('tracer') is not None:
+                if r.get('tracer') is not None and not r.get('convention'):
                     restore(c['block'], r['snap'])
                     op, net = culprit(c['orig_by_dest'], c['block'], spec_by_name, r['tracer'], c['ncyc'])
-                sig = signature_for(pname, op, net)
+                sig = signature_for(pname, op, net) if not r.get('convention') else 'optimize-call:wrong-behaviour'
                 ctx.spec_violation(sig, '%s (x%d) on a %s design changes Output %s at cycle %d: reference %d, got %d '
                                         '(first wrong net of the original: %s)' % (
                                             pname, reps, c['form'], bad[1], bad[0], bad[2], bad[3], net),
@@ -932,8 +1060,8 @@ def run(ctx):
                 ctx.model_mismatch('api_built (Pass/OptCheck.v) is false on an API-built design: the assumption of the '
                                    'C04 theorems does not cover design %d %s' % (c['i'], c['form']), rep)
             if pname in PREMISE:
-                ctx.count('theorem_premise:' + PREMISE[pname], 'holds' if side_ok == 1 else 'fails')
-                if side_ok != 1:
+                ctx.count('theorem_premise:' + PREMISE[pname], {1: 'holds', 2: 'not-evaluated'}.get(side_ok, 'fails'))
+                if side_ok not in (1, 2):
                     ctx.model_mismatch('decidable premise %s of the preservation theorem of %s is false '
                                        '(design %d %s x%d)' % (PREMISE[pname], pname, c['i'], c['form'], reps), rep)
             if mtrace != r['trace']:
@@ -944,8 +1072,8 @@ def run(ctx):
             if mwf != 1:
                 ctx.model_mismatch('model result of %s is not wfb (design %d %s x%d)' % (pname, c['i'], c['form'], reps), rep)
             if pname in ('optimize', 'constant_propagation'):
-                ctx.count('theorem_steady_hypothesis:' + pname, 'holds' if steady_ok == 1 else 'fails')
-                if steady_ok != 1:
+                ctx.count('theorem_steady_hypothesis:' + pname, {1: 'holds', 2: 'not-evaluated'}.get(steady_ok, 'fails'))
+                if steady_ok not in (1, 2):
                     ctx.model_mismatch('the initial state does not satisfy the steady-state hypothesis of the '
                                        'preservation theorem of %s (design %d %s x%d)' % (pname, c['i'], c['form'], reps), rep)
             mw, mn = model_exact(rows_w, rows_n, c['names'])
